@@ -914,6 +914,9 @@ const (
 )
 
 func (ex *Exec) objPtr(elem types.Type, ref *Term) *MetaPtr {
+	if mp := ex.handlePtr(elem, ref); mp != nil {
+		return mp
+	}
 	switch u := elem.Underlying().(type) {
 	case *types.Struct:
 		return &MetaPtr{Kind: PObj, Ref: ref, Struct: u, SName: structName(elem), Root: elem}
@@ -1057,6 +1060,10 @@ func (fx *fnExec) load(st *State, mp *MetaPtr) Val {
 	ex := fx.ex
 	mp = ex.resolve(mp)
 	switch mp.Kind {
+	case PMulti:
+		return fx.loadMulti(st, mp)
+	case PNil:
+		return navigate(zeroVal(mp.Root), mp.Path)
 	case PLocal:
 		v, ok := st.Allocs[mp.Alloc]
 		if !ok {
@@ -1088,6 +1095,11 @@ func (fx *fnExec) store(st *State, mp *MetaPtr, v Val) {
 	ex := fx.ex
 	mp = ex.resolve(mp)
 	switch mp.Kind {
+	case PMulti:
+		fx.storeMulti(st, mp, v)
+		return
+	case PNil:
+		return
 	case PLocal:
 		old, ok := st.Allocs[mp.Alloc]
 		if !ok {
@@ -1140,6 +1152,10 @@ func (fx *fnExec) materialize(v Val) Val {
 	case PObj, PArr, PCell:
 		if len(mp.Path) == 0 {
 			return Val{T: v.T, C: []*Term{mp.Ref}}
+		}
+	case PElem:
+		if len(mp.Path) == 0 && isStruct(mp.Root) {
+			return Val{T: v.T, C: []*Term{fx.ex.elemHandle(mp)}}
 		}
 	}
 	fail("%s: cannot turn interior pointer (kind %d, type %v) into a first-class value; mark the callee inline or restructure the contract", fx.fn, mp.Kind, v.T)
